@@ -169,7 +169,7 @@ def run_harness(sc, vfh, mode, behs, chunk=40, nworkers=None, timeout=3600, extr
         with open(inp, "w") as f:
             json.dump(behs[i:i + chunk], f)
         jobs.append((inp, os.path.join(wd, "t%d.ndjson" % i)))
-    cmds = [[vfh, mode, "%d%03d" % (1 + os.getpid() % 9, j), inp, outp] + list(extra_args)
+    cmds = [[vfh, mode, "%d%03d" % (core.slot(), j), inp, outp] + list(extra_args)
             for j, (inp, outp) in enumerate(jobs)]
     env_tmp = sc.path("tmp")
     os.makedirs(env_tmp, exist_ok=True)
